@@ -394,6 +394,70 @@ func isFreshObject(v ssa.Value) bool {
 		return isFreshObject(x.X)
 	case *ssa.Phi:
 		return false
+	case *ssa.UnOp:
+		// t := new(T); t.f = ... where t is a local that a closure captures later: the variable lives in a cell,
+		// every access loads the pointer from it. Fresh as long as (a) everything ever stored in the cell is a fresh
+		// allocation of this function and (b) the access cannot come after the point where the cell (or the
+		// pointer) becomes visible to other code: a closure binding the cell, a go/defer/call taking the pointer.
+		if x.Op != token.MUL {
+			return false
+		}
+		cell, ok := x.X.(*ssa.Alloc)
+		if !ok || cell.Referrers() == nil {
+			return false
+		}
+		var pubs []ssa.Instruction
+		nStore := 0
+		for _, rf := range *cell.Referrers() {
+			switch y := rf.(type) {
+			case *ssa.Store:
+				if y.Addr != ssa.Value(cell) {
+					return false
+				}
+				if _, isAlloc := y.Val.(*ssa.Alloc); !isAlloc {
+					return false
+				}
+				nStore++
+			case *ssa.MakeClosure:
+				pubs = append(pubs, y)
+			case *ssa.UnOp:
+				if y.Referrers() == nil {
+					continue
+				}
+				for _, u := range *y.Referrers() {
+					switch z := u.(type) {
+					case *ssa.FieldAddr, *ssa.DebugRef:
+					case ssa.CallInstruction:
+						// a method call on / call with the object: it may publish it - unless it is the embedded
+						// mutex being locked (a sync method on a field address is a FieldAddr use, not this case)
+						pubs = append(pubs, z)
+					case *ssa.Store:
+						if z.Val == ssa.Value(y) {
+							pubs = append(pubs, z)
+						}
+					case *ssa.Return:
+					default:
+						pubs = append(pubs, u)
+					}
+				}
+			case *ssa.DebugRef:
+			default:
+				return false
+			}
+		}
+		if nStore == 0 {
+			return false
+		}
+		f := x.Parent()
+		for _, p := range pubs {
+			if p == ssa.Instruction(x) {
+				continue
+			}
+			if reach, _ := pathExists(f, p, func(j ssa.Instruction) bool { return j == ssa.Instruction(x) }, nil); reach {
+				return false
+			}
+		}
+		return true
 	}
 	return false
 }
